@@ -7,12 +7,12 @@ CONSTANTS
   Sessions = {"s1"}
   MaxLog = 6
   MaxCrash = 1
-  EnableBranch = TRUE
+  EnableBranch = FALSE
   SidecarNextSeq = FALSE
   LineageLocked = TRUE
-  SecondInput = TRUE
+  SecondInput = FALSE
   Tasks = {"k1"}
-  TaskGuarded = TRUE
+  TaskGuarded = FALSE
   Cold = FALSE
   Guarded = TRUE
 INVARIANTS TypeOK GapFree AckedOnce MutexHeld
